@@ -475,9 +475,16 @@ def inner1():
 
 
 def inner2():
-    """x -> a ~ normal(x, 1.5); b ~ normal(a, 0.5) @ ("t","b"); return a + b"""
+    """x -> a ~ normal(x, 1.5) @ ("u","a"); b ~ normal(a, 0.5) @ ("t","b"); return a + b   (hierarchical addresses)"""
     N = Dist("normal")
-    return Static("inner2", [("a", N, lambda a, r: (a[0], _f(1.5))), (("t", "b"), N, lambda a, r: (r[0], _f(0.5)))],
+    return Static("inner2", [(("u", "a"), N, lambda a, r: (a[0], _f(1.5))), (("t", "b"), N, lambda a, r: (r[0], _f(0.5)))],
+                  lambda a, r: r[0] + r[1], (_f(0.4),))
+
+
+def inner2s():
+    """x -> a ~ normal(x, 1.5); b ~ normal(a, 0.5); return a + b   (address "a" shared with inner1)"""
+    N = Dist("normal")
+    return Static("inner2s", [("a", N, lambda a, r: (a[0], _f(1.5))), ("b", N, lambda a, r: (r[0], _f(0.5)))],
                   lambda a, r: r[0] + r[1], (_f(0.4),))
 
 
@@ -517,6 +524,7 @@ def catalogue(tier="quick"):
         "scan(walk)": lambda: Scan(k_normal_walk(), 3),
         "scan(kern2)": lambda: Scan(k_two_site(), 3),
         "switch(inner1,inner2)": lambda: Switch([inner1(), inner2()]),
+        "switch(inner1,inner2s)": lambda: Switch([inner1(), inner2s()]),
         "switch3": lambda: Switch([inner1(), inner2(), inner_flip()], idx=2),
         "mask(inner1)": lambda: MaskP(inner1()),
         "mask(inner2)": lambda: MaskP(inner2()),
@@ -524,6 +532,7 @@ def catalogue(tier="quick"):
         "map(inner2)": lambda: MapP(inner2(), lambda r: r * r + 1.0),
         "contramap(innerS)": lambda: Contramap(inner_sigma(), lambda x: (x * 2.0, _f(0.5)), (_f(0.4),)),
         "or_else(inner1,inner2)": lambda: OrElse(inner1(), inner2()),
+        "or_else(inner1,inner2s)": lambda: OrElse(inner1(), inner2s(), flag=False),
         "mix(inner1,inner2)": lambda: Mix(inner1(), inner2()),
         "composed": composed,
         "static(vmap)": static_vmap,
